@@ -190,6 +190,25 @@ CLAIMED["C06"] = {
     "design": "5 C06",
 }
 
+CLAIMED["C03"] = {
+    "text": "ChaiCore.tla is an independent reference interpreter of the documented core semantics written in TLA+ (state-passing "
+            "big-step evaluator over cells, objects, frames of scopes, globals, functions, classes, output): C operators on ints, "
+            "strings, bools; short-circuit; ternary; block scoping and shadowing; clone on declaration vs aliasing through references, "
+            "parameters, captures and ranged-for variables; shallow container copies; const literals and temporaries; if/else-if/else, "
+            "while/for/ranged-for with break/continue; switch with fall-through; functions with typed parameters, guards (overload order: "
+            "non-matching parameter types, guarded first, definition order), early return; lambdas with captures; classes with "
+            "attributes, constructors, methods; vectors and maps. A seeded grammar-directed generator draws programs as data; TLC "
+            "evaluates every program with the reference (output lines, final value, error class, and the reference's own scope "
+            "balance) and the driver runs the same program in the real engine with the optimizing and the unoptimized parser; all "
+            "three must agree.",
+    "note": "Sampling over the generator's program space (1,500 programs quick / 20,000 thorough per seed), not exhaustive; programs whose "
+            "integers grow beyond +-30000 or that exhaust the reference's loop fuel are dropped; string ordering, floats, try/catch "
+            "(C10), size_t arithmetic and modification of a container during iteration (C12 exclusion) are not generated; trusted: the "
+            "AST printer.",
+    "technique": "TLA+ reference interpreter evaluated by TLC on generated programs + differential replay into the implementation (both parsers)",
+    "design": "5 C03",
+}
+
 PENDING_REASON = "check not built yet in this session; planned (see DESIGN.md section 8)"
 
 ALL = [f"C{i:02d}" for i in range(1, 21)]
